@@ -73,6 +73,42 @@ def outerLoop (db : Str) (L : Nat) (length : Nat) (stride : Int) (bans : List St
 def barcodesOn (db : Str) (length n : Nat) (bans : List Str) (filters : List (Str → Bool)) : Res (List Str) :=
   outerLoop db db.length length ((length : Int) - ((n : Int) - 1)) bans filters (db.length + 1) 0
 
+/-! ### an executable twin of the outer loop (used by the correspondence driver only)
+
+`outerLoop` finds `debruijn[start:]` by walking the list from its head for every slot — at orders
+7 and 8 with small strides that is 10⁴–10⁵ walks over 16–65 k letters.  `outerLoopFast` does the same
+loop but keeps the last suffix it reached (`cur = db.drop curPos`) and walks on from there.
+`Lemmas/Barcodes.outerLoopFast_eq` / Props/C17 `barcodesOnFast_eq` prove that the two return the
+same value for every input (any stride, also ≤ 0), so the driver's use of the twin changes nothing
+about what is compared with the code. -/
+
+/-- `db.drop start`, reached from a known suffix `cur = db.drop curPos` when `curPos ≤ start` -/
+def suffixAt (db cur : Str) (curPos start : Nat) : Str :=
+  if curPos ≤ start then cur.drop (start - curPos) else db.drop start
+
+def outerLoopFast (db : Str) (L : Nat) (length : Nat) (stride : Int) (bans : List Str) (filters : List (Str → Bool)) :
+    (fuel barcodeNum : Nat) → (cur : Str) → (curPos : Nat) → Res (List Str)
+  | 0, _, _, _ => .fuel
+  | fuel + 1, barcodeNum, cur, curPos =>
+    if (barcodeNum : Int) * stride + length < L then
+      let startI : Int := barcodeNum * stride
+      if startI < 0 then .panic else
+      let start := startI.toNat
+      let end_ := start + length
+      let rest := suffixAt db cur curPos start
+      match shiftLoop L bans filters (L + 1) rest start end_ (barcodeNum + 1) with
+      | .found s e bn =>
+        let rest' := rest.drop (s - start)
+        (if s ≤ e ∧ e ≤ L then Res.ok (rest'.take (e - s)) else Res.panic).bind fun w =>
+        (outerLoopFast db L length stride bans filters fuel bn rest' s).bind fun tl => .ok (w :: tl)
+      | .atEnd => .ok []
+      | .panic => .panic
+      | .fuel => .fuel
+    else .ok []
+
+def barcodesOnFast (db : Str) (length n : Nat) (bans : List Str) (filters : List (Str → Bool)) : Res (List Str) :=
+  outerLoopFast db db.length length ((length : Int) - ((n : Int) - 1)) bans filters (db.length + 1) 0 db 0
+
 /-- `primers.CreateBarcodesWithBannedSequences(length, n, bans, filters)` for `length, n ≥ 0` -/
 def createBarcodesWith (length n : Nat) (bans : List Str) (filters : List (Str → Bool)) : Res (List Str) :=
   (deBruijn n).bind fun db => barcodesOn db length n bans filters
